@@ -70,15 +70,14 @@ let rec special (v : value) : bool =
   | VObj l -> List.exists (fun (_, v) -> special v) l
   | _ -> false
 
-(* causes: the negated hypotheses of the partial theorems, per string literal *)
+(* causes: the negated hypotheses of the partial theorems, per string literal.  The causes of the
+   repaired defects (raw-control-char, block-escaped-triple-quote, block-blank-only,
+   default-null-list-wrapped) are gone on purpose: a regression is unexplained, hence a violation. *)
 let rec causes (v : value) : string list =
   match v with
-  | VStr (r, false) ->
-    (if has_raw_ctl r then ["raw-control-char"] else []) @ (if no_brace_escape r then [] else ["braced-unicode-escape"])
+  | VStr (r, false) -> if no_brace_escape r then [] else ["braced-unicode-escape"]
   | VStr (r, true) ->
-    (if has_escaped_triple r then ["block-escaped-triple-quote"] else [])
-    @ (if rescan_exact r then [] else ["block-quote-next-to-whitespace"])
-    @ (if blank_only r then ["block-blank-only"] else [])
+    (if rescan_exact r then [] else ["block-quote-next-to-whitespace"])
     @ (if go_block_lexable r then [] else ["block-lexer-delimits-differently"])
     @ (if utf8_ok O (block_string_value r) then [] else ["block-ill-formed-utf8"])
   | VList l -> List.concat_map causes l
@@ -299,9 +298,7 @@ let handle (x : sexp) : (string * string) list =
      let expected_val = match supplied with
        | Some j -> Some (denote_or_null j)
        | None -> if valid_lit then Some (default_denote (nat_of_int wraps) (gql_denote [] dv)) else None in
-     let cs =
-       (if not valid_lit then ["malformed-literal-accepted"] else causes dv)
-       @ (if supplied = None && wraps > 0 && valid_lit && is_dnull (gql_denote [] dv) then ["default-null-list-wrapped"] else []) in
+     let cs = if not valid_lit then ["malformed-literal-accepted"] else causes dv in
      let argname = if wraps > 0 then "la" else "a" in
      let check lvl infos is_l2 =
        match List.assoc_opt argname infos with
